@@ -357,9 +357,11 @@ def atticLoop (E : Env) (cfg : Cfg) (p : Path) (new : List (Dir × Digest)) (old
   | (d, g) :: rest, keep => do
     if some g ≠ lookupScm new d then do
       let st ← getSt
-      if E.hasDir ((st.disk p).getD emptyC) d then do
+      -- `os.path.exists(scmPath)`; the SCM directory "." is the workspace itself
+      if (if d = "." then (st.disk p).isSome else E.hasDir ((st.disk p).getD emptyC) d) then do
         if !cfg.attic then abort
-        prim (.atticMove p d) (fun s => s.setDisk p (E.rmDir d ((s.disk p).getD emptyC)))
+        prim (.atticMove p d) (fun s =>
+          if d = "." then { s with disk := upd s.disk p none } else s.setDisk p (E.rmDir d ((s.disk p).getD emptyC)))
         prim (.setAttic p d) (fun s => { s with attic := s.attic ++ [(p, d)] })
       let keep' := keep.filter (fun x => x.1 ≠ d)
       prim (.setDir p (.co keep' oldVid oldBo)) (fun s => s.setDir p (.co keep' oldVid oldBo))
@@ -558,5 +560,30 @@ def Res.log {α : Type} : Res α → List Op
 def Res.isOk {α : Type} : Res α → Bool
   | .ok _ _ => true
   | .abort _ => false
+
+/-! ## the source order the model was transcribed from
+
+State updates / workspace operations of the cook functions in source order, as extracted from the
+current source into `Generated/ConstsC01.lean` (`Props/C01.lean` proves they are equal, so a
+reordering in the source is a broken proof obligation, not only a correspondence difference). -/
+
+def expectedBuildCalls : List String :=
+  ["_constructDir", "resetWorkspaceState", "emptyDirectory", "resetWorkspaceState", "setResultHash", "hashWorkspace",
+   "delInputHashes", "setResultHash", "_runShell", "hashWorkspace", "_generateAudit", "setResultHash",
+   "setVariantId", "setInputHashes"]
+
+def expectedPrepareCalls : List String := ["resetWorkspaceState", "unlink", "emptyDirectory", "resetWorkspaceState"]
+
+def expectedPackageCalls : List String :=
+  ["_constructDir", "delInputHashes", "setResultHash", "_runShell", "hashWorkspace", "_generateAudit", "setResultHash",
+   "setVariantId", "setInputHashes"]
+
+/-- `_cookCheckoutStep`: the first `_runShell` / `setDirectoryState` / `hashWorkspace` belong to the
+`--build-only` branch (not modelled), then the attic loop, then the run branch -/
+def expectedCheckoutCalls : List String :=
+  ["_constructDir", "resetWorkspaceState", "_runShell", "setDirectoryState", "hashWorkspace",
+   "setAtticDirectoryState", "setDirectoryState", "setDirectoryState", "rename", "setAtticDirectoryState",
+   "setDirectoryState", "setDirectoryState", "setResultHash", "_runShell", "setDirectoryState", "setInputHashes",
+   "setVariantId", "hashWorkspace", "_generateAudit", "setResultHash"]
 
 end Builder
